@@ -1,0 +1,59 @@
+//go:build verif
+
+// Contracts for the reference key-value executor, read by /verif/bin/gocv. Comment-only.
+package executor
+
+// Keys written by anything other than a transaction are reserved: the genesis markers
+// (InitChain) and the finalized height (SetFinal). The state root must not read them and
+// transactions must not write them, otherwise the root depends on more than the executed
+// transactions.
+//@ pred Reserved(k) := k == dskey("/genesis/initialized") || k == dskey("/genesis/stateroot") || k == dskey("/finalizedHeight")
+//@ axiom genesisInitializedKey.string == dskey("/genesis/initialized")
+//@ axiom genesisStateRootKey.string == dskey("/genesis/stateroot")
+//@ axiom finalizedHeightKey.string == dskey("/finalizedHeight")
+
+//@ func (k *KVExecutor) SetFinal(ctx, blockHeight) (err)
+//@   property C15
+//@   requires [wiring] k.db != nil
+//@   observe put := call Put
+//@   modifies durable k.db.kv[dskey("/finalizedHeight")], durable k.db.kvHas[dskey("/finalizedHeight")], durable k.db.size
+//@   ensures [final-frame] Reserved(dskey("/finalizedHeight")) && put.count <= 1
+
+//@ func (k *KVExecutor) computeStateRoot(ctx) (root, err)
+//@   property C15
+//@   requires [wiring] k.db != nil
+//@   loop 1 invariant [root-excludes-reserved] len(keys) == iter(len(keys)) + 1 ==> !Reserved(dskey(result.Key))
+//@   loop 1 invariant [root-includes-app] recvCount("Next") == 1 && result.Error == nil && !Reserved(dskey(result.Key)) ==> len(keys) == iter(len(keys)) + 1
+//@   loop 1 invariant [one-key-per-result] len(keys) == iter(len(keys)) || len(keys) == iter(len(keys)) + 1
+
+//@ func (k *KVExecutor) ExecuteTxs(ctx, txs, blockHeight, timestamp, prevStateRoot) (root, maxBytes, err)
+//@   property C15
+//@   requires [wiring] k.db != nil
+//@   observe bt := call Batch
+//@   observe cm := call Commit
+//@   modifies durable k.db.kv, durable k.db.kvHas, durable k.db.size
+//@   ensures [atomic-reject] cm.count == 0 ==> k.db.kv == old(k.db.kv) && k.db.kvHas == old(k.db.kvHas)
+//@   ensures [one-commit] cm.count <= 1 && (cm ==> cm.arg0 == bt.res0)
+//@   ensures [commit-failed-no-effect] cm && cm.res0 != nil ==> k.db.kv == old(k.db.kv) && k.db.kvHas == old(k.db.kvHas)
+//@   ensures [reserved-protected] forall key :: Reserved(key) ==> k.db.kv[key] == old(k.db.kv[key]) && k.db.kvHas[key] == old(k.db.kvHas[key])
+//@   loop 1 invariant [staged-only-app-keys] bt && bt.res1 == nil && forall key :: bt.res0.pendHas[key] ==> !Reserved(key)
+//@   loop 1 invariant [nothing-written-yet] cm.count == 0 && k.db.kv == old(k.db.kv) && k.db.kvHas == old(k.db.kvHas)
+
+//@ func (k *KVExecutor) InitChain(ctx, genesisTime, initialHeight, chainID) (root, maxBytes, err)
+//@   property C15
+//@   requires [wiring] k.db != nil
+//@   observe csr := call computeStateRoot
+//@   observe cm := call Commit
+//@   modifies durable k.db.kv, durable k.db.kvHas, durable k.db.size
+//@   ensures [init-frame] forall key :: !Reserved(key) ==> k.db.kv[key] == old(k.db.kv[key]) && k.db.kvHas[key] == old(k.db.kvHas[key])
+//@   ensures [init-idempotent] old(k.db.kvHas[dskey("/genesis/initialized")]) ==> cm.count == 0 && csr.count == 0 && k.db.kv == old(k.db.kv) && k.db.kvHas == old(k.db.kvHas)
+//@                       && (err == nil ==> val(root) == old(k.db.kv[dskey("/genesis/stateroot")]))
+//@   ensures [marks-initialized] !old(k.db.kvHas[dskey("/genesis/initialized")]) && err == nil ==> k.db.kvHas[dskey("/genesis/initialized")] && k.db.kv[dskey("/genesis/stateroot")] == val(root)
+
+//@ func (k *KVExecutor) InjectTx(tx)
+//@   property C15
+//@   ensures [mempool-frame] sendCount("txChan") <= 1
+
+//@ func (k *KVExecutor) GetTxs(ctx) (txs, err)
+//@   property C15
+//@   ensures [mempool-frame] true
